@@ -4,6 +4,7 @@ import random
 
 from .. import sched as S
 from ..worlds import flworld as fw
+from ..worlds import procworld as pw
 
 PROPERTY = 'C02'
 LEVEL = 'exploration'
@@ -30,21 +31,33 @@ ASSUMPTIONS = ['Linux; CPython 3.12.1', 'a thread nests acquires only on a reent
 
 def batches(tier):
     k = 1 if tier == 'quick' else 12
-    return [{'name': 'threads', 'n': 16000 * k, 'profile': 'conc'}]
+    return [{'name': 'threads', 'n': 16000 * k, 'profile': 'conc'},
+            {'name': 'processes', 'n': 1200 * k, 'profile': 'proc', 'chunk': 40}]
 
 
 def make_case(batch, seed):
     rng = random.Random(seed)
+    if batch['profile'] == 'proc':
+        return {'prog': pw.gen_contend_program(rng, 'proc'), 'sched': {'seed': seed}}
     prog = fw.gen_conc_program(rng, batch['profile'])
     return {'prog': prog, 'sched': {'seed': seed, 'strategy': list(S.pick_strategy(rng))}}
 
 
 def run_case(case):
+    if case['prog']['world'] == 'proc-contend':
+        return pw.execute_contend(case['prog'], case.get('sched') or {})
     return fw.execute_conc(case['prog'], case.get('sched') or {})
 
 
 def shrink(case):
     p = case['prog']
+    if p['world'] == 'proc-contend':
+        if len(p['scripts']) > 2:
+            for i in range(len(p['scripts'])):
+                c = json.loads(json.dumps(case))
+                del c['prog']['scripts'][i]
+                yield c
+        return
     if len(p['threads']) > 2:
         for i in range(len(p['threads'])):
             c = json.loads(json.dumps(case))
